@@ -124,6 +124,37 @@ static void mutate(vh_rng *r, int t, vh_sb *out)
         vh_sb_printf(out, "}");
         return;
     }
+    if ((t == T_JSGF || t == T_FSG || t == T_ALIGN) && vh_chance(r, 0.08)) {
+        /* a valid grammar over a large vocabulary (tens to a few hundred dictionary words, many of them with alternate
+         * pronunciations): the word tables and per-word flag vectors of the grammar are re-allocated several times, and the
+         * vocabulary size sits near the sizes at which they grow */
+        static const char **altbase; static int naltbase; const vd_lex *lx = vd_lexicon(VD_EN);
+        int V = vh_chance(r, 0.6) ? 32 * vh_range(r, 1, 7) - vh_range(r, 0, 7) : vh_range(r, 5, 260), nalt, q, guard = 0;
+        if (!altbase) {
+            altbase = (const char **)calloc((size_t)lx->n / 4 + 1, sizeof(char *));
+            for (q = 0; q < lx->n; ++q) { const char *w = lx->word[q]; size_t l = strlen(w); const char *c; int ok = l > 3 && !strcmp(w + l - 3, "(2)"); for (c = w; ok && c < w + l - 3; ++c) if (!isalpha((unsigned char)*c)) ok = 0; if (ok && naltbase < lx->n / 4) { char *b = strdup(w); b[l - 3] = 0; altbase[naltbase++] = b; } }
+        }
+        nalt = vh_chance(r, 0.3) ? 0 : vh_range(r, 1, V < 40 ? V : 40);
+        vh_sb_reset(out);
+        if (t == T_JSGF) vh_sb_printf(out, "#JSGF V1.0;\ngrammar big;\npublic <w> = (");
+        else if (t == T_FSG) vh_sb_printf(out, "FSG_BEGIN big\nNUM_STATES 2\nSTART_STATE 0\nFINAL_STATE 1\n");
+        for (q = 0; q < V && guard < 4000; ++guard) {
+            const char *w; const char *c; int ok = 1;
+            /* the words with alternates come last half of the time: their flags are then the highest-numbered ones */
+            int want_alt = naltbase > 0 && (nalt >= V - q || (nalt > 0 && vh_chance(r, 0.5) && guard % 2 == 0));
+            if (want_alt) { w = altbase[vh_below(r, (uint32_t)naltbase)]; }
+            else { w = lx->word[vh_below(r, (uint32_t)lx->n)]; for (c = w; *c; ++c) if (!isalpha((unsigned char)*c)) ok = 0; if (!ok || !*w) continue; }
+            if (want_alt) --nalt;
+            if (t == T_JSGF) vh_sb_printf(out, "%s%s", q ? " | " : " ", w);
+            else if (t == T_FSG) vh_sb_printf(out, "TRANSITION %d %d %g %s\n", q % 2 ? 1 : 0, q % 3 ? 1 : 0, 1.0 / (1 + q % 4), w);
+            else vh_sb_printf(out, "%s%s", q ? " " : "", w);
+            ++q;
+        }
+        if (t == T_JSGF) vh_sb_printf(out, " )+ ;\n");
+        else if (t == T_FSG) vh_sb_printf(out, "TRANSITION 0 1 0.1\nFSG_END\n");
+        vh_count("large_vocabulary_grammars", 1); vh_max("max_generated_vocabulary", V);
+        if (vh_chance(r, 0.7)) return;
+    } else
     if (vh_chance(r, 0.06)) {                             /* unstructured bytes */
         int n = vh_range(r, 0, 300); vh_sb_reset(out); for (k = 0; k < n; ++k) vh_sb_putc(out, (int)vh_below(r, 256)); return;
     }
